@@ -6,7 +6,7 @@
    correspondence only. *)
 From Coq Require Import List NArith Bool String.
 Import ListNotations.
-Require Import RV.Lib.PyStr RV.Model.Path RV.Model.Rights RV.Model.Regex RV.Model.FromFile.
+Require Import RV.Lib.PyStr RV.Model.Path RV.Model.Rights RV.Model.Regex RV.Model.RegexLang RV.Model.FromFile.
 Require Import RV.Proofs.PathProofs RV.Proofs.RightsProofs RV.Proofs.RightsIntersect RV.Proofs.RegexMatchProofs RV.Proofs.RegexEscapeProofs
                RV.Proofs.RegexFuelProofs RV.Proofs.FromFileProofs RV.Proofs.C04Final.
 Require RV.Gen.PathGen RV.Gen.RightsGen.
@@ -137,7 +137,7 @@ Theorem C04_from_file_error : forall rules u p,
 Proof. exact c04_from_file_error. Qed.
 Print Assumptions C04_from_file_error.
 
-(* What "matches" means, declaratively (M = the language of a regex, RegexMatchProofs.v): the user name is in the
+(* What "matches" means, declaratively (M = the language of a regex, Model/RegexLang.v): the user name is in the
    language of the user pattern AS A WHOLE and the stripped path is in the language, AS A WHOLE, of the collection
    pattern in which re.escape(user) and re.escape(group) were substituted. *)
 Theorem C04_section_match : forall sec u sp,
